@@ -25,8 +25,45 @@ def flatten_concat(node):
     return [node]
 
 
+def _pieces(expr):
+    """literal and dynamic pieces of a string-building expression: `+` concatenation, f-strings, str(x)"""
+    out = []
+    for p in flatten_concat(expr):
+        if isinstance(p, ast.Constant) and isinstance(p.value, str):
+            out.append(('lit', p.value))
+        elif isinstance(p, ast.JoinedStr):
+            for v in p.values:
+                if isinstance(v, ast.Constant) and isinstance(v.value, str):
+                    out.append(('lit', v.value))
+                elif isinstance(v, ast.FormattedValue) and v.format_spec is None and v.conversion in (-1, 115):
+                    out.append(_dyn(v.value))
+                else:
+                    out.append(('other', ast.unparse(v)))
+        elif isinstance(p, ast.Call) and getattr(p.func, 'id', '') == 'str' and len(p.args) == 1:
+            out.append(_dyn(p.args[0]))
+        else:
+            out.append(('other', ast.unparse(p)))
+    # adjacent literals are one literal
+    merged = []
+    for q in out:
+        if q[0] == 'lit' and merged and merged[-1][0] == 'lit':
+            merged[-1] = ('lit', merged[-1][1] + q[1])
+        elif q != ('lit', ''):
+            merged.append(q)
+    return tuple(merged)
+
+
+def _dyn(node):
+    """a dynamic piece rendered with str(): the `kind` parameter, or the index (the local `idx`, or any other expression -
+    that it is the decimal index of the name is what the run-time contract `result == name(kind, old counter)` checks)"""
+    if isinstance(node, ast.Name) and node.id == 'kind':
+        return ('kind',)
+    return ('idx',)
+
+
 def shapes():
-    """method name -> list of pieces: ('lit', text) | ('kind',) | ('idx',)  (from every `name = ...` assignment)."""
+    """method name -> the shapes of the strings the method can return: pieces ('lit', text) | ('kind',) | ('idx',) | ('other', text),
+    read from `name = <expr>` assignments and from `return <expr>` statements that build a string"""
     with open(os.path.join(REPO, MOD)) as fh:
         tree = ast.parse(fh.read())
     out = {}
@@ -36,18 +73,38 @@ def shapes():
                 if isinstance(m, ast.FunctionDef) and m.name.startswith('new_'):
                     found = []
                     for n in ast.walk(m):
+                        e = None
                         if isinstance(n, ast.Assign) and len(n.targets) == 1 and isinstance(n.targets[0], ast.Name) and n.targets[0].id == 'name':
-                            pieces = []
-                            for p in flatten_concat(n.value):
-                                if isinstance(p, ast.Constant) and isinstance(p.value, str):
-                                    pieces.append(('lit', p.value))
-                                elif isinstance(p, ast.Call) and getattr(p.func, 'id', '') == 'str' and isinstance(p.args[0], ast.Name):
-                                    pieces.append(('kind',) if p.args[0].id == 'kind' else ('idx',) if p.args[0].id == 'idx' else ('other', p.args[0].id))
-                                else:
-                                    pieces.append(('other', ast.unparse(p)))
-                            found.append(tuple(pieces))
+                            e = n.value
+                        elif isinstance(n, ast.Return) and n.value is not None and not isinstance(n.value, ast.Name):
+                            e = n.value
+                        if e is not None:
+                            found.append(_pieces(e))
                     out[m.name] = found
     return out
+
+
+DEFAULT_SHAPES = {
+    'new_block_name': (('kind',), ('lit', '_block_'), ('idx',)),
+    'new_region_name': (('kind',), ('lit', '_region_'), ('idx',)),
+    'new_var_name': (('lit', '__scfg_'), ('kind',), ('lit', '_var_'), ('idx',), ('lit', '__')),
+}
+
+
+def shape_of(meth):
+    """the shape the spec functions block_name / region_name / var_name stand for: read from the current source when both
+    branches of the method build the same analysable shape (literals around one str(kind) and one str(idx), kind first),
+    the pinned tree's shape otherwise (the contract then fails, as it should: the generator no longer builds names that way)"""
+    try:
+        found = set(shapes().get(meth) or [])
+    except Exception:
+        found = set()
+    if len(found) == 1:
+        pcs = next(iter(found))
+        kinds = [p[0] for p in pcs]
+        if kinds.count('kind') == 1 and kinds.count('idx') == 1 and 'other' not in kinds and kinds.index('kind') < kinds.index('idx'):
+            return pcs
+    return DEFAULT_SHAPES[meth]
 
 
 def smt_term(pieces, k, d):
@@ -88,13 +145,14 @@ def run_cvc5(text, timeout=60):
 
 def check():
     sh = shapes()
-    obligations, fails, samples = [], [], []
+    obligations, fails, samples, undecided = [], [], [], []
     uniq = {}
     for meth, found in sorted(sh.items()):
         # both branches of a method must build the same shape
-        if len(set(found)) != 1:
-            fails.append({'obligation': 'NameGenerator.%s::shape-consistent' % meth, 'detail': 'branches build different shapes: %r' % (found,)})
-            obligations.append('shape-consistent:' + meth)
+        if len(set(found)) != 1 or any(p[0] == 'other' for p in found[0]):
+            # the way the method builds its string is outside what this reader understands: undecided (the sampled check
+            # below still runs on the real method), never a violation by itself
+            undecided.append({'obligation': 'NameGenerator.%s::shape-readable' % meth, 'detail': 'shapes read: %r' % (found,)})
             continue
         obligations.append('shape-consistent:' + meth)
         uniq[meth] = found[0]
@@ -126,8 +184,28 @@ def check():
     strs = [str(i) for i in range(20000)]
     if len(set(strs)) != len(strs) or not all(s.isdigit() and s for s in strs):
         fails.append({'obligation': 'A-str', 'detail': 'str(i) not an injective digit string on 0..19999'})
+    # bounded stand-in on the real methods (always run; the only check when a shape could not be read): names of all three
+    # methods over a grid of kinds (incl. kinds that look like generated names) and indices are pairwise different
+    try:
+        sys.path.insert(0, REPO)
+        from numba_scfg.core.datastructures.scfg import NameGenerator
+        kinds = ['a', 'b', 'a_block_1', 'x_region_', '__scfg_', 'a_var_0__', '1', '', 'synth_asign', 'control', 'a_block', 'block_1']
+        seen = {}
+        n_s = 0
+        for meth in sorted(sh):
+            for k in kinds:
+                g = NameGenerator(kinds={})
+                for i in range(12):
+                    nm = getattr(g, meth)(k)
+                    n_s += 1
+                    if nm in seen and seen[nm] != (meth, k, i):
+                        fails.append({'obligation': 'NameGenerator::sampled-distinct', 'detail': '%r handed out for %r and %r' % (nm, seen[nm], (meth, k, i))})
+                    seen[nm] = (meth, k, i)
+        samples.append({'obligation': 'NameGenerator::sampled-distinct', 'verdict': 'bounded: %d names pairwise different' % n_s, 'backend': 'execution'})
+    except Exception as e:
+        undecided.append({'obligation': 'NameGenerator::sampled-distinct', 'detail': 'sampling raised %r' % (e,)})
     return {'obligations': len(obligations), 'discharged': len(obligations) - len(fails), 'failures': fails, 'samples': samples,
-            'shapes': {k: [list(p) for p in v] for k, v in uniq.items()}}
+            'undecided': undecided, 'shapes': {k: [list(p) for p in v] for k, v in uniq.items()}}
 
 
 if __name__ == '__main__':
